@@ -20,13 +20,22 @@
 (* replay every history through the real module (spec -> code):            *)
 (*   ret    handle (Register), 1/0 (Unregister), -1 otherwise              *)
 (*   emits  the per-mille fractions emitted by the call (chosen outcome)   *)
-(*   alts   every outcome Update allows on a float boundary                *)
+(*   alts   every outcome Update allows on a float boundary (amb: > 1)     *)
 (*   msg    token of the message the emission carries                      *)
 (*   cbs    handles notified, in order                                     *)
 (***************************************************************************)
 EXTENDS Progress
 
-CONSTANTS MaxTotal, MaxHist, MaxCb, Steps    \* Steps: notification steps N (percent) a Progress object may be given
+CONSTANTS MaxHist, MaxCb,
+          Oids,          \* Progress objects in play: {1} or {1, 2} (2 is nested inside 1)
+          EnterTotals,   \* totals a Progress object may be created with (0: the division fails)
+          Steps,         \* notification steps N (percent) a Progress object may be given
+          SetArgs,       \* arguments of Progress.set
+          NewTotals,     \* totals passed to set_message (-1 = keep); empty = no set_message calls
+          UnregArgs      \* handles passed to unregister (<= 0 are refused, > MaxCb were never issued)
+\* cfg files hold no negative numbers: the argument sets with -1 are named here and substituted (<-)
+UnregAll == (0 - 1)..(MaxCb + 1)
+KeepOr3 == {0 - 1, 3}
 
 VARIABLES counter, cbs, objs, recent, hist
 vars == <<counter, cbs, objs, recent, hist>>
@@ -42,9 +51,9 @@ Init ==
 
 Room == Len(hist) < MaxHist
 
-Rec(op, oid, x, y, f, err, ret, emits, alts, msg, notified, o) ==
+Rec(op, oid, x, y, f, err, ret, emits, alts, msg, notified, o, amb) ==
     [op |-> op, oid |-> oid, x |-> x, y |-> y, f |-> f, err |-> err, ret |-> ret, emits |-> emits, alts |-> alts,
-     msg |-> msg, cbs |-> notified, i |-> o.i, total |-> o.total]
+     msg |-> msg, cbs |-> notified, i |-> o.i, total |-> o.total, amb |-> amb]
 
 Without(s, h) == SelectSeq(s, LAMBDA e : e # h)
 Has(s, h) == \E k \in 1..Len(s) : s[k] = h
@@ -54,12 +63,12 @@ Register ==
     /\ Room /\ counter < MaxCb
     /\ counter' = counter + 1
     /\ cbs' = Append(cbs, counter + 1)
-    /\ hist' = Append(hist, Rec("register", 0, 0, 0, FALSE, "", counter + 1, <<>>, {<<>>}, 0, <<>>, Dead))
+    /\ hist' = Append(hist, Rec("register", 0, 0, 0, FALSE, "", counter + 1, <<>>, {<<>>}, 0, <<>>, Dead, FALSE))
     /\ UNCHANGED <<objs, recent>>
 
 RegisterBad ==
     /\ Room
-    /\ hist' = Append(hist, Rec("register-bad", 0, 0, 0, FALSE, "TypeError", 0 - 1, <<>>, {<<>>}, 0, <<>>, Dead))
+    /\ hist' = Append(hist, Rec("register-bad", 0, 0, 0, FALSE, "TypeError", 0 - 1, <<>>, {<<>>}, 0, <<>>, Dead, FALSE))
     /\ UNCHANGED <<counter, cbs, objs, recent>>
 
 \* h = 0 and h < 0 are refused, h = MaxCb + 1 is a handle that was never issued; f = TRUE passes a non-integer
@@ -69,7 +78,7 @@ Unregister(h, nonint) ==
            found == err = "" /\ Has(cbs, h)
        IN /\ cbs' = IF found THEN Without(cbs, h) ELSE cbs
           /\ hist' = Append(hist, Rec("unregister", 0, h, 0, nonint, err, IF err # "" THEN 0 - 1 ELSE IF found THEN 1 ELSE 0,
-                                      <<>>, {<<>>}, 0, <<>>, Dead))
+                                      <<>>, {<<>>}, 0, <<>>, Dead, FALSE))
     /\ UNCHANGED <<counter, objs, recent>>
 
 \* ---- Progress objects (nesting discipline of a with-statement: 2 lives inside 1) ----
@@ -83,7 +92,7 @@ Enter(oid, total, n) ==
         LET o == [i |-> 0, total |-> total, n |-> n, msg |-> oid, live |-> u.err = "", bad |-> FALSE] IN
         /\ objs' = IF u.err = "" THEN [objs EXCEPT ![oid] = o] ELSE objs
         /\ recent' = IF u.err = "" THEN u.recent ELSE 0 - 1         \* i = 0 resets the marker before the division
-        /\ hist' = Append(hist, Rec("enter", oid, total, n, FALSE, u.err, 0 - 1, u.emits, {x.emits : x \in us}, oid, cbs, o))
+        /\ hist' = Append(hist, Rec("enter", oid, total, n, FALSE, u.err, 0 - 1, u.emits, {x.emits : x \in us}, oid, cbs, o, Cardinality(us) > 1))
     /\ UNCHANGED <<counter, cbs>>
 
 Call(oid, op, x, y, f, rs, msg) ==
@@ -91,7 +100,7 @@ Call(oid, op, x, y, f, rs, msg) ==
         /\ objs' = [objs EXCEPT ![oid] = [i |-> r.o.i, total |-> r.o.total, n |-> r.o.n, msg |-> msg, live |-> TRUE,
                                           bad |-> (r.u.err # "" /\ op = "inc")]]
         /\ recent' = r.u.recent
-        /\ hist' = Append(hist, Rec(op, oid, x, y, f, r.u.err, 0 - 1, r.u.emits, Alts(rs), msg, cbs, r.o))
+        /\ hist' = Append(hist, Rec(op, oid, x, y, f, r.u.err, 0 - 1, r.u.emits, Alts(rs), msg, cbs, r.o, Cardinality(rs) > 1))
 
 Usable(oid) == Room /\ objs[oid].live /\ ~objs[oid].bad
 
@@ -119,19 +128,19 @@ Exit(oid) ==
        \E r \in rs :
         /\ objs' = [objs EXCEPT ![oid] = Dead]
         /\ recent' = r.u.recent
-        /\ hist' = Append(hist, Rec("exit", oid, 0, 0, FALSE, r.u.err, 0 - 1, r.u.emits, Alts(rs), objs[oid].msg, cbs, r.o))
+        /\ hist' = Append(hist, Rec("exit", oid, 0, 0, FALSE, r.u.err, 0 - 1, r.u.emits, Alts(rs), objs[oid].msg, cbs, r.o, Cardinality(rs) > 1))
     /\ UNCHANGED <<counter, cbs>>
 
 Next ==
     \/ Register
     \/ RegisterBad
-    \/ \E h \in (0 - 1)..(MaxCb + 1) : Unregister(h, FALSE)
+    \/ \E h \in UnregArgs : Unregister(h, FALSE)
     \/ Unregister(1, TRUE)
-    \/ \E oid \in 1..2, t \in 0..MaxTotal, n \in Steps : Enter(oid, t, n)
-    \/ \E oid \in 1..2, s \in 1..2, f \in BOOLEAN : Increment(oid, s, f)
-    \/ \E oid \in 1..2, i \in 0..(MaxTotal + 1) : Set(oid, i)
-    \/ \E oid \in 1..2, seti \in BOOLEAN, nt \in {0 - 1, MaxTotal}, f \in BOOLEAN : SetMessage(oid, seti, nt, f)
-    \/ \E oid \in 1..2 : Exit(oid)
+    \/ \E oid \in Oids, t \in EnterTotals, n \in Steps : Enter(oid, t, n)
+    \/ \E oid \in Oids, s \in 1..2, f \in BOOLEAN : Increment(oid, s, f)
+    \/ \E oid \in Oids, i \in SetArgs : Set(oid, i)
+    \/ \E oid \in Oids, seti \in BOOLEAN, nt \in NewTotals, f \in BOOLEAN : SetMessage(oid, seti, nt, f)
+    \/ \E oid \in Oids : Exit(oid)
 Spec == Init /\ [][Next]_vars
 
 \* ---- properties ------------------------------------------------------------------
